@@ -185,15 +185,15 @@ impl<'a> Rd<'a> {
     pub fn new(line: &'a str) -> Self {
         Rd { toks: line.split_ascii_whitespace().collect(), i: 0 }
     }
-    fn done(&self) -> bool {
+    pub fn done(&self) -> bool {
         self.i >= self.toks.len()
     }
-    fn tok(&mut self) -> R<&'a str> {
+    pub fn tok(&mut self) -> R<&'a str> {
         let t = self.toks.get(self.i).ok_or("unexpected end of line")?;
         self.i += 1;
         Ok(t)
     }
-    fn nat(&mut self) -> R<u64> {
+    pub fn nat(&mut self) -> R<u64> {
         let t = self.tok()?;
         t.parse::<u64>().map_err(|_| format!("expected number, got {t}"))
     }
@@ -378,7 +378,7 @@ impl<'a> Rd<'a> {
             t => return Err(format!("bad iter token {t}")),
         })
     }
-    fn inputs(&mut self) -> R<Vec<Vec<u32>>> {
+    pub fn inputs(&mut self) -> R<Vec<Vec<u32>>> {
         let mut out = Vec::new();
         while !self.done() {
             match self.tok()? {
